@@ -11,7 +11,7 @@ import (
 
 func init() {
 	register("C05", func(r *Report) {
-		r.Explanation = "Decides both clauses for all maps, client IDs and names (the arguments are value independent): (R1) GetTopicName explored for all 16 combinations of (client map present, client map has the ID, \"*\" map present, \"*\" map has the ID) - presence meaning the comma-ok result of the map lookups, entry values unconstrained (possibly empty) - returns the client-specific entry when it exists, otherwise the \"*\" entry, otherwise not-found; (R2) every 'found' return of GetTopicID returns a range key of a map whose range value was compared equal to the requested name, and that map is either the client's own map, or the \"*\" map under a failed comma-ok lookup of the same key in a map value that is (on every path) the client's own map t[clientID] - which together with R1 implies GetTopicName(clientID, id) == name. Not decided: YAML parsing."
+		r.Explanation = "Decides both clauses for all maps, client IDs and names (the arguments are value independent): (R1) GetTopicName explored for all 16 combinations of (client map present, client map has the ID, \"*\" map present, \"*\" map has the ID) - presence meaning the comma-ok result of the map lookups, entry values unconstrained (possibly empty) - returns the client-specific entry when it exists, otherwise the \"*\" entry, otherwise not-found; (R2) every 'found' return of GetTopicID returns a range key of a map whose range value was compared equal to the requested name, and that map is either the client's own map, or the \"*\" map under a failed comma-ok lookup of the same key in a map value that is (on every path) the client's own map t[clientID] - which together with R1 implies GetTopicName(clientID, id) == name. (R3) the users of the pair - every resolver site of gateway, client library and CLI tools - call these two functions directly with their own client ID (C32-R1/R2) and the gateway pairs IDs and names only from their results (C02-R2, C01-R2), so the consistency decided above is what the peers actually observe. Not decided: YAML parsing."
 		r.floor("R1", 16)
 		r.floor("R2", 2)
 	}, checkC05)
@@ -256,6 +256,22 @@ func checkC05(c *Ctx, r *Report) {
 	if nFound == 0 {
 		r.undecided("R2", "GetTopicID:found-returns", c.pos(gti.Pos()), "no 'found' return in GetTopicID")
 	}
+	// R3: the users of the lookup pair consult it directly and with one identity - consistency of the two
+	// functions is worth nothing if a caller answers from somewhere else (a cache, another client's ID)
+	tmp := newReport("C32")
+	tmp.configActive = r.configActive
+	checkC32Sites(c, tmp)
+	for _, o := range tmp.Obls {
+		o2 := *o
+		o2.Key = "C32/" + strings.TrimPrefix(o.Rule, "C32-") + ":" + o.Key
+		o2.Rule = "C05-R3"
+		r.Obls = append(r.Obls, &o2)
+	}
+	for f := range tmp.Funcs {
+		r.Funcs[f] = true
+	}
+	importRules(c, r, "C02", map[string]string{"R2": "R3"})
+	importRules(c, r, "C01", map[string]string{"R2": "R3"})
 }
 
 // mapSourceClass: v is (on every path) the value of t[clientID] ("client") or
